@@ -1273,3 +1273,491 @@ def _is_property(fn):
 
 def _is_static(fn):
     return any(isinstance(d, ast.Name) and d.id == "staticmethod" for d in fn.decorator_list)
+
+
+# ===========================================================================
+# sinks
+# ===========================================================================
+class Collector:
+    """ctx-like sink used for in-memory mutation adequacy: records findings instead of reporting them"""
+
+    def __init__(self, tier="quick"):
+        self.findings = []
+        self.counts = {}
+        self.tier = tier
+        self.obligations = 0
+
+    def check(self, rule, instance, ok, func, construct, message, node=None, witness=None, detail=""):
+        self.obligations += 1
+        if not ok:
+            self.finding(rule, func, construct, message, node=node)
+        return ok
+
+    def ob(self, rule, instance, ok, detail=""):
+        self.obligations += 1
+        return ok
+
+    def finding(self, rule, func, construct, message, node=None, file=None, witness=None):
+        qn = func.qualname if hasattr(func, "qualname") else func
+        self.findings.append((rule, qn, norm(construct) if construct is not None else "", message))
+
+    def count(self, name, n=1):
+        self.counts[name] = self.counts.get(name, 0) + n
+
+    def floor(self, name, minimum, actual=None):
+        actual = self.counts.get(name, 0) if actual is None else actual
+        if actual < minimum:
+            raise AnalysisError("instance floor not met for %s: %d < %d" % (name, actual, minimum))
+
+    def require(self, cond, what):
+        if not cond:
+            raise AnalysisError(what)
+
+    def note(self, s):
+        pass
+
+    def assume(self, s):
+        pass
+
+    def analysed(self, f):
+        pass
+
+    def keys(self):
+        return {(r, q, c) for r, q, c, m in self.findings}
+
+
+# ===========================================================================
+# origin typing
+# ===========================================================================
+XREF_CLASSES = ("ClassAnalysis", "MethodAnalysis", "StringAnalysis", "FieldAnalysis")
+DECODERS = {"get_cm_type": "type", "get_cm_method": "method", "get_cm_string": "string", "get_cm_field": "field"}
+ID_ITEM = {"method": "MethodIdItem", "field": "FieldIdItem"}
+
+
+def _is_definition_lookup(name):
+    return (name.startswith(("get_encoded_field", "get_encoded_method", "get_class", "get_method", "get_field", "get_all_fields"))
+            or name in ("get_classes", "get_methods", "get_fields", "get_classes_names", "get_methods_class", "get_fields_class"))
+
+
+class Roles:
+    """classifies terms of `Analysis._create_xref` by origin"""
+
+    def __init__(self, eng: Engine, root: Func):
+        self.eng = eng
+        self.root = root
+        ps = root.params()
+        if len(ps) < 2:
+            raise AnalysisError("%s: expected (self, current_class)" % root.qualname)
+        self.cls_param = ("param", root.qualname, ps[1])
+        self.components = {}
+        dexm = eng.mod(DEX)
+        for pool, cname in ID_ITEM.items():
+            f = eng.lookup(dexm.cls(cname), "get_list")
+            if f is None:
+                raise AnalysisError("anchor vanished: %s.get_list" % cname)
+            comps = None
+            for n in ast.walk(f.node):
+                if isinstance(n, ast.Return) and isinstance(n.value, (ast.List, ast.Tuple)):
+                    comps = []
+                    for e in n.value.elts:
+                        if (isinstance(e, ast.Call) and isinstance(e.func, ast.Attribute) and isinstance(e.func.value, ast.Name)
+                                and e.func.value.id == "self" and e.func.attr.startswith("get_")):
+                            comps.append(e.func.attr[4:])
+                        else:
+                            raise AnalysisError("%s.get_list: component %s is not a self.get_*() call" % (cname, ast.unparse(e)))
+            if not comps:
+                raise AnalysisError("%s.get_list does not return a literal list" % cname)
+            self.components[pool] = comps
+        self._memo = {}
+
+    def role(self, t):
+        if t in self._memo:
+            return self._memo[t]
+        r = self._role(t)
+        self._memo[t] = r
+        return r
+
+    def _role(self, t):
+        if not isinstance(t, tuple) or not t:
+            return None
+        k = t[0]
+        R = self.role
+        if t == self.cls_param:
+            return ("CUR", "classdef")
+        if k == "const":
+            return ("const", t[1])
+        if t == OP:
+            return ("OP",)
+        if k == "self0":
+            return ("ANALYSIS",)
+        if k == "enumconv" and t[2] == OP:
+            return ("REF", t[1])
+        if k == "elem":
+            mc = is_mcall(t[1])
+            if mc and not mc[2]:
+                rr = R(mc[0])
+                if mc[1] == "get_methods" and rr == ("CUR", "classdef"):
+                    return ("CUR", "encmeth")
+                if mc[1] == "get_instructions_idx" and rr == ("CUR", "encmeth"):
+                    return ("INSPAIR",)
+            return None
+        if k == "item":
+            if R(t[1]) == ("INSPAIR",):
+                return ("OFF",) if t[2] == 0 else (("INS",) if t[2] == 1 else None)
+            return None
+        if k == "attr":
+            rb = R(t[1])
+            if t[2] == "vm" and rb == ("CM",):
+                return ("VM", "ins")
+            if t[2] in ("cm", "CM") and rb == ("INS",):
+                return ("CM",)
+            if rb == ("ANALYSIS",):
+                return ("TABLE", t[2])
+            if t[2] == "vms" and rb == ("ANALYSIS",):
+                return ("TABLE", "vms")
+            if rb is not None and rb[0] == "METH" and t[2] == "method":
+                return ("ENC",) + rb[1:]
+            return None
+        if k == "sub" or is_mcall(t, "get"):
+            base, key = (t[1], t[2]) if k == "sub" else (t[1][1], t[2][0] if t[2] else None)
+            rb = R(base)
+            rk = R(key) if key is not None else None
+            if rb == ("TABLE", "classes"):
+                return ("CLS", rk) if rk is not None else None
+            if rb == ("TABLE", "methods"):
+                if rk == ("CUR", "encmeth"):
+                    return ("METH", "CUR")
+                return None
+            if rb == ("TABLE", "strings"):
+                return ("STR", rk) if rk is not None else None
+            if rb == ("TABLE", "vms"):
+                return ("VM", "positional")
+            if rb is not None and rb[0] == "INFO" and rk is not None and rk[0] == "const" and isinstance(rk[1], int):
+                comps = self.components[rb[1]]
+                if 0 <= rk[1] < len(comps):
+                    return ("T", rb[1], comps[rk[1]], "raw")
+                return None
+            if k == "sub" and isinstance(base, tuple) and base[0] == "attr" and base[2] == "_fields":
+                rc = R(base[1])
+                if rc is not None and rc[0] == "CLS" and rk is not None:
+                    return ("FIELD", rc, rk)
+            if k == "sub" and isinstance(base, tuple) and base[0] == "attr" and base[2] == "_methods":
+                # ClassAnalysis._methods[M.method] is M (invariant of add_method, checked separately)
+                if rk is not None and rk[0] == "ENC":
+                    return ("METH",) + rk[1:]
+            return None
+        if k == "call":
+            mc = is_mcall(t)
+            if not mc:
+                return None
+            recv, name, args = mc
+            rr = R(recv)
+            if name == "get_name" and not args and rr == ("CUR", "classdef"):
+                return ("CUR", "clsname")
+            if name == "get_op_value" and rr == ("INS",):
+                return ("OP",)
+            if name == "get_ref_kind" and not args and rr == ("INS",):
+                return ("REFIDX",)
+            if name in ("get_vm",) and rr in (("CM",), ("METH", "CUR")):
+                return ("VM", "ins")
+            if name in DECODERS and rr is not None and rr[0] == "VM" and len(args) == 1:
+                if R(args[0]) != ("REFIDX",):
+                    return None
+                pool = DECODERS[name]
+                if rr[1] != "ins":
+                    return ("WRONGVM", pool, rr)
+                if pool in ID_ITEM:
+                    return ("INFO", pool)
+                return ("T", pool, None, "raw")
+            if name == "lstrip" and rr is not None and rr[0] == "T" and len(args) == 1 and args[0] == const("["):
+                return rr[:3] + ("stripped",)
+            if name == "get_encoded_field_descriptor" and rr is not None and rr[0] == "VM":
+                return ("FIELDITEM", rr, tuple(R(a) for a in args))
+            if name == "get_class_name" and not args and rr is not None and rr[0] == "FIELDITEM":
+                return ("FIELDITEM.class_name",) + rr[1:]
+            if name == "_resolve_method" and rr == ("ANALYSIS",) and len(args) == 3:
+                ra = tuple(R(a) for a in args)
+                return ("METH", "T") + ra
+            if name == "get_method" and not args and rr is not None and rr[0] == "METH":
+                return ("ENC",) + rr[1:]
+            return None
+        if k == "lin":
+            return None
+        return None
+
+    # ---- rendering (canonical, independent of local variable names) -------------
+    def render(self, t, depth=0):
+        r = self.role(t)
+        if r is not None:
+            s = self.rname(r)
+            if s is not None:
+                return s
+        if not isinstance(t, tuple) or not t or depth > 10:
+            return show(t)
+        k = t[0]
+        rd = lambda x: self.render(x, depth + 1)
+        if k == "attr":
+            return "%s.%s" % (rd(t[1]), t[2])
+        if k == "sub":
+            return "%s[%s]" % (rd(t[1]), rd(t[2]))
+        if k == "call":
+            return "%s(%s)" % (rd(t[1]), ", ".join(rd(a) for a in t[2]))
+        if k == "cmp":
+            return "%s %s %s" % (rd(t[2]), t[1], rd(t[3]))
+        if k == "not":
+            return "not %s" % rd(t[1])
+        if k in ("and", "or"):
+            return "(" + (" %s " % k).join(rd(x) for x in t[1:]) + ")"
+        if k in ("tuple", "list"):
+            return "(" + ", ".join(rd(x) for x in t[1:]) + ")"
+        if k == "new":
+            return "%s(%s)" % (t[1], ", ".join(rd(a) for a in t[2]))
+        if k == "item":
+            return "%s[%d]" % (rd(t[1]), t[2])
+        if k == "lin":
+            parts = [rd(a) if c == 1 else "%d*%s" % (c, rd(a)) for a, c in t[1]]
+            if t[2]:
+                parts.append(str(t[2]))
+            return " + ".join(parts)
+        if k == "isinstance":
+            return "isinstance(%s, %s)" % (rd(t[1]), rd(t[2]))
+        if k == "elem":
+            return "<element of %s>" % rd(t[1])
+        return show(t)
+
+    def rname(self, r):
+        k = r[0]
+        if r == ("CUR", "classdef"):
+            return "current_class"
+        if r == ("CUR", "clsname"):
+            return "cur_class_name"
+        if r == ("CUR", "encmeth"):
+            return "current_method"
+        if r == ("METH", "CUR"):
+            return "cur_method_analysis"
+        if k == "METH" and r[1] == "T":
+            return "_resolve_method(%s)" % ", ".join(self.rname(x) if x else "?" for x in r[2:])
+        if k == "ENC":
+            return "%s.method" % self.rname(("METH",) + r[1:])
+        if k == "CLS":
+            return "classes[%s]" % (self.rname(r[1]) if r[1] else "?")
+        if k == "STR":
+            return "strings[%s]" % (self.rname(r[1]) if r[1] else "?")
+        if k == "FIELD":
+            return "%s._fields[%s]" % (self.rname(r[1]), self.rname(r[2]))
+        if k == "OFF":
+            return "off"
+        if k == "INS":
+            return "instruction"
+        if k == "OP":
+            return "op_value"
+        if k == "REFIDX":
+            return "ref_idx"
+        if k == "CM":
+            return "instruction.cm"
+        if k == "VM":
+            return {"ins": "instruction.cm.vm", "positional": "self.vms[..]"}.get(r[1], "vm")
+        if k == "INFO":
+            return "%sref" % r[1]
+        if k == "T":
+            base = "%sref" % r[1] + (".%s" % r[2] if r[2] else "")
+            return base + (".lstrip('[')" if r[3] == "stripped" else "")
+        if k == "FIELDITEM":
+            return "%s.get_encoded_field_descriptor(%s)" % (self.rname(r[1]), ", ".join(self.rname(x) if x else "?" for x in r[2]))
+        if k == "FIELDITEM.class_name":
+            return self.rname(("FIELDITEM",) + r[1:]) + ".get_class_name()"
+        if k == "REF":
+            return "%s(op_value)" % r[1]
+        if k == "TABLE":
+            return "self.%s" % r[1]
+        if k == "ANALYSIS":
+            return "self"
+        if k == "const":
+            return repr(r[1])
+        if k == "WRONGVM":
+            return "%s.get_cm_%s(ref_idx)" % (self.rname(r[2]), r[1])
+        return None
+
+
+# ===========================================================================
+# facts of _create_xref
+# ===========================================================================
+class Fact:
+    """one primitive xref record:  <owner>.<set>[key].add(tuple)"""
+    __slots__ = ("ev", "owner_cls", "attr", "getter", "owner", "key", "tup", "r_owner", "r_key", "r_tup", "pool")
+
+    def site(self):
+        return (id(self.ev.root_node()), self.owner_cls, self.getter)
+
+
+class PathRec:
+    __slots__ = ("ops", "state", "facts", "conds", "guard", "end", "reached")
+
+
+def xref_getters(eng: Engine):
+    """(class name, set attribute) -> getter name, from the get_xref_* methods"""
+    m = eng.mod(ANALYSIS)
+    out = {}
+    for cn in XREF_CLASSES:
+        c = m.cls(cn)
+        for f in eng.cls_methods(c):
+            if not f.name.startswith("get_xref_"):
+                continue
+            for n in ast.walk(f.node):
+                if isinstance(n, ast.Return) and n.value is not None:
+                    for a in ast.walk(n.value):
+                        if isinstance(a, ast.Attribute) and isinstance(a.value, ast.Name) and a.value.id == "self":
+                            prev = out.get((cn, a.attr))
+                            if prev is not None and prev != f.name:
+                                raise AnalysisError("%s.%s is returned by two getters (%s, %s)" % (cn, a.attr, prev, f.name))
+                            out[(cn, a.attr)] = f.name
+    return out
+
+
+class XrefModel:
+    """all paths of Analysis._create_xref for every opcode, reduced to facts"""
+
+    NO_INLINE = ("_resolve_method", "Analysis._resolve_method")
+
+    def __init__(self, eng: Engine):
+        self.eng = eng
+        self.m = eng.mod(ANALYSIS)
+        self.root = eng.func(ANALYSIS, "Analysis._create_xref")
+        self.root_cls = self.m.cls("Analysis")
+        self.roles = Roles(eng, self.root)
+        self.getters = xref_getters(eng)
+        self.paths = []
+        self.origin = {}
+        self._run()
+
+    def _funcs_for_constants(self):
+        fs = [self.root]
+        for cn in XREF_CLASSES:
+            for f in self.eng.cls_methods(self.m.cls(cn)):
+                if f.name.startswith("add_"):
+                    fs.append(f)
+        # helpers of Analysis called from the root (extract-method refactors)
+        names = {n.func.attr for n in ast.walk(self.root.node)
+                 if isinstance(n, ast.Call) and isinstance(n.func, ast.Attribute) and isinstance(n.func.value, ast.Name) and n.func.value.id == "self"}
+        for nm in names:
+            f = self.eng.lookup(self.root_cls, nm)
+            if f is not None:
+                fs.append(f)
+        return fs
+
+    def _run(self):
+        parts = self.eng.op_partition(self._funcs_for_constants(), OP_DOMAIN)
+        self.nparts = len(parts)
+        arith = False
+        runs = []
+        for rep, members in parts:
+            ex = Exec(self.eng, op=rep, no_inline=self.NO_INLINE, root_cls=self.root_cls)
+            sts = ex.run(self.root)
+            arith = arith or ex.op_arith
+            runs.append((members, sts))
+        if arith:
+            runs = []
+            for k in OP_DOMAIN:
+                ex = Exec(self.eng, op=k, no_inline=self.NO_INLINE, root_cls=self.root_cls)
+                runs.append(([k], ex.run(self.root)))
+            self.nparts = len(OP_DOMAIN)
+        self.ins_loops = set()
+        for members, sts in runs:
+            for st in sts:
+                self.paths.append(self._reduce(members, st))
+
+    def _ins_loop_end(self, st):
+        """the iter_end event of the instruction loop on this path"""
+        for e in st.events:
+            if e.kind == "iter_end" and isinstance(e.node, (ast.For,)) and e.func.qualname == self.root.qualname:
+                if _is_call_to(e.node.iter, "get_instructions_idx"):
+                    return e
+        return None
+
+    def _reduce(self, members, st):
+        p = PathRec()
+        p.ops = members
+        p.state = st
+        p.facts = []
+        end = self._ins_loop_end(st)
+        p.end = end
+        p.reached = end is not None
+        p.guard = end.value if end is not None else None
+        p.conds = end.conds if end is not None else st.conds
+        for e in st.events:
+            if e.kind == "call" and e.name == "add" and len(e.args) == 1 and e.recv is not None:
+                f = self._fact(e)
+                if f is not None:
+                    p.facts.append(f)
+        return p
+
+    def _fact(self, e):
+        recv = e.recv
+        key = None
+        if recv[0] == "sub" and isinstance(recv[1], tuple) and recv[1][0] == "attr":
+            key = recv[2]
+            recv = recv[1]
+        if recv[0] != "attr":
+            return None
+        owner, attr = recv[1], recv[2]
+        oc = self.eng.type_of(owner, self.root_cls)
+        r_owner = self.roles.role(owner)
+        if oc is None and r_owner is not None:
+            oc_name = {"CLS": "ClassAnalysis", "METH": "MethodAnalysis", "STR": "StringAnalysis", "FIELD": "FieldAnalysis"}.get(r_owner[0])
+        else:
+            oc_name = oc.name if oc is not None else None
+        if oc_name is None or (oc_name, attr) not in self.getters:
+            return None
+        f = Fact()
+        f.ev = e
+        f.owner_cls = oc_name
+        f.attr = attr
+        f.getter = self.getters[(oc_name, attr)]
+        f.owner = owner
+        f.key = key
+        a = e.args[0]
+        f.tup = tuple(a[1:]) if a[0] == "tuple" else (a,)
+        f.r_owner = r_owner
+        f.r_key = self.roles.role(key) if key is not None else None
+        f.r_tup = tuple(self.roles.role(x) for x in f.tup)
+        f.pool = None
+        return f
+
+
+def _is_call_to(e, name):
+    return isinstance(e, ast.Call) and isinstance(e.func, ast.Attribute) and e.func.attr == name
+
+
+def _pool_of_role(r):
+    """which reference pool a role was decoded from (method / type / string / field), or None"""
+    if r is None:
+        return None
+    if r[0] == "T":
+        return r[1]
+    if r[0] == "INFO":
+        return r[1]
+    if r[0] in ("CLS", "STR"):
+        return _pool_of_role(r[1])
+    if r[0] == "METH" and r[1] == "T":
+        for x in r[2:]:
+            p = _pool_of_role(x)
+            if p:
+                return p
+    if r[0] in ("FIELDITEM", "FIELDITEM.class_name"):
+        for x in r[2]:
+            p = _pool_of_role(x)
+            if p:
+                return p
+    if r[0] == "FIELD":
+        return _pool_of_role(r[2]) or _pool_of_role(r[1])
+    if r[0] == "WRONGVM":
+        return r[1]
+    return None
+
+
+def fact_pool(f: Fact):
+    for r in (f.r_owner, f.r_key) + tuple(f.r_tup):
+        p = _pool_of_role(r)
+        if p:
+            return p
+    return None
